@@ -25,7 +25,8 @@ THEOREMS = ['Tbox.C12.' + t for t in [
     'C12_url_abs_roundtrip_counterexample_noscheme', 'C12_port_width', 'C12_port_width_counterexample',
     'C12_content_length_width', 'C12_declared_length_waits', 'C12_scripted_peer_stream',
     'C12_multi_token_own', 'C12_multi_frame', 'C12_multi_per_connection', 'C12_multi_stale_commit',
-    'C12_multi_stale_commit_counterexample_unrepaired_cabinet', 'C12_multi_stop_all', 'C12_multi_handler_stop']]
+    'C12_multi_stale_commit_counterexample_unrepaired_cabinet', 'C12_multi_stop_all', 'C12_multi_handler_stop',
+    'C12_multi_backlog_held', 'C12_multi_backlog_queue', 'C12_multi_backlog_start', 'C12_multi_close_commit']]
 SOURCES = [
     'modules/http/common.cpp', 'modules/http/url.cpp', 'modules/http/request.cpp', 'modules/http/respond.cpp',
     'modules/http/server/request_parser.cpp', 'modules/http/server/server.cpp', 'modules/http/server/server_imp.cpp',
@@ -83,7 +84,20 @@ TRUSTED = ['models lean/TboxModel/C12/Model.lean (parser, feed loop) and Pipelin
            'ids never reissued) for TcpServer::conns; the harness has up to 8 clients on the Unix socket (`conn`, `on <k>`), attributes each request to '
            'the connection whose socket the library read last (interposed readv), reads at EVERY client after every op and prints bytes / EOF seen at a '
            'connection other than the current one as `P xout` / `P xeof`; write answers (`wq`) are one global queue on both sides, `wfail` / EPIPE is per socket; '
-           '`conn` is only offered while the server is running (no model of the listen backlog); ops sstop/sclean/sstart = Server::stop/cleanup/start',
+           'ops sstop/sclean/sstart = Server::stop/cleanup/start',
+           'listen backlog (MServer.pending, MOp.connq, acceptN): TcpAcceptor::stop() only disables the read event of the listening socket, so clients '
+           'keep connecting (`srvq` = initialised but never started, `conn`/`connd <bytes>` while stopped, script prefix `q` = a client connects while the '
+           'first handler of that request runs); kernel semantics assumed: a completed connection waits in the backlog in connect order (the harness listens '
+           'with backlog 16 and keeps at most 4 + the handler-time connects waiting), data sent before accept() is delivered after it, closing the '
+           'listening socket refuses later connects; the k-th accepted connection is the k-th client that connected (FIFO), which is how the harness '
+           'attributes server-side descriptors to clients; clients still in the backlog are not read by the harness',
+           'same pass: `mseg c:hex,…` / `msegr` let several clients write before ONE loop pass; an epoll_wait interposer hands the events of the listed '
+           'connections to the loop in the listed order whatever order the kernel found them in (`msegr`: the clients wrote in the opposite order) — the '
+           'engine order is an oracle input; during `sstart` the same interposer withholds the events of connection sockets until every waiting client is '
+           'accepted (level-triggered events come again), then the first reads happen in connection order; the model runs the listed connections one after the other '
+           '(C12_multi_frame / C12_multi_per_connection: the records are independent), handler-time connects are added after the last one; the order of the first '
+           'readv calls is compared as `M rd`; for these ops the close() calls of unrelated connections are compared sorted by connection; `mseg` requires an '
+           'empty write-answer queue (the queue is global, the interleaving of the writes of two connections across passes is not modelled)',
            'a case with a peer half-close is run as coded (`chalf`) and — for the first 3 such cases — as the property asks (`chalfS`, recorded finding); '
            'the fingerprint of the finding is given only when the implementation reports EOF where responses were still expected AND the same '
            'history agrees with the model of the code as it is; everything else in such a history keeps its own fingerprint']
@@ -128,7 +142,13 @@ RULE = ('cases from props/C12/plugin.py: (a) parser level — pipelines of 1-4 g
         'previous body / the previous request / a prefix of it, Content-Length = bytes buffered at the blank line -1/0/+1 (0..65), header names differing in '
         'case from Content-Length / Connection, duplicate Content-Length headers with different / malformed values, close inside longer Connection values, '
         'the same request 2-3 times, 64..3000 headers (also 3000 times the same name); (n) placement: every byte-string input of url.cpp / Respond::toString as a heap '
-        'string of exactly its size, lengths 0..4 and around 8/16/24/32/64, escapes ending at / 1 / 2 bytes before the end. '
+        'string of exactly its size, lengths 0..4 and around 8/16/24/32/64, escapes ending at / 1 / 2 bytes before the end; '
+        '(o) SAME PASS: 2-4 connections have a segment waiting when the loop makes ONE pass (`mseg`/`msegr`); the order in which the engine hears about '
+        'them is part of the op (an epoll_wait interposer hands the events over in that order, whatever order the clients wrote in), incl. a handler of the '
+        'first one stopping the server or throwing before the others are read; (p) LISTEN BACKLOG: clients connecting before start(), while the server is '
+        'stopped, and from inside a handler (which may stop / clean up the server in the same call), some sending requests at once; start() accepts them in '
+        'order over the cabinet cells of torn-down connections whose Contexts complete late (done / commit in the pass of the peer close); cleanup() with '
+        'clients waiting; connect after cleanup. '
         'non-trivial = the model run delivers at least one request out of >= 2 segments, or parks/flushes a response, or fails/closes, '
         'or sees a peer close or a large response; '
         'distinct = distinct op text')
@@ -813,7 +833,7 @@ def gen_multi_case(rng, nconn=None, fam=None):
     failure / a closing request while others are alive; stop()/cleanup() outside and from inside a handler with connections in
     different pipeline states; restart; a NEW connection reusing the cabinet slot of a torn-down one whose Contexts complete late"""
     nconn = nconn or rng.choice([2, 2, 3, 3, 4, 5])
-    fam = fam or rng.choice(['mix', 'mix', 'mix', 'reuse', 'reuse', 'stop', 'hstop', 'restart', 'fault'])
+    fam = fam or rng.choice(['mix', 'mix', 'mix', 'reuse', 'reuse', 'stop', 'hstop', 'restart', 'fault', 'pass', 'pass', 'passstop'])
     ops = ['srv']
     cur = [0]
     st = {}          # per connection: stream, fed, ends, kept, done, dead, nreq
@@ -842,7 +862,7 @@ def gen_multi_case(rng, nconn=None, fam=None):
 
     def delivered(j): return [i for i in range(st[j]['n']) if st[j]['ends'][i] <= st[j]['fed']]
 
-    def feed(j):
+    def feed(j, collect=None):
         c = st[j]
         if not c['segs']: return False
         on(j)
@@ -853,11 +873,13 @@ def gen_multi_case(rng, nconn=None, fam=None):
                 elif r < 0.33:
                     sp = rng.choice(['n/b41', 'n/k', 'k.n/b42', 'n.n/b43', 'b41.b42'])
                     ops.append('script %d %s' % (i, sp)); c['scripts'][i] = sp
-                elif fam == 'hstop' and r < 0.50:
+                elif fam in ('hstop', 'passstop') and r < 0.50:
                     sp = rng.choice(['s', 'c', 'k.s', 'k.c', 'b41.s', 'n/c'])
                     ops.append('script %d %s' % (i, sp)); c['scripts'][i] = sp
         sg = c['segs'].pop(0)
-        ops.append('seg ' + hx(sg)); c['fed'] += len(sg)
+        c['fed'] += len(sg)
+        if collect is None: ops.append('seg ' + hx(sg))
+        else: collect.append((j, sg))
         return True
 
     def complete(j, late=False):
@@ -881,7 +903,12 @@ def gen_multi_case(rng, nconn=None, fam=None):
         live = sorted(st)
         r = rng.random()
         j = rng.choice(live)
-        if r < 0.40: feed(j)
+        if r < 0.40 and fam in ('pass', 'passstop') and len(live) >= 2:
+            # several connections have a segment waiting in the same loop pass; the engine's order is part of the input
+            items = []
+            for jj in rng.sample(live, min(len(live), rng.choice([2, 2, 3, 4]))): feed(jj, items)
+            if items: ops.append(rng.choice(['mseg ', 'msegr ']) + ','.join('%d:%s' % (jj, hx(sg)) for (jj, sg) in items))
+        elif r < 0.40: feed(j)
         elif r < 0.70: complete(j)
         elif r < 0.76 and len(st) < nconn + (2 if fam in ('reuse', 'restart') else 0):
             ops.append('conn'); mk(len(st))
@@ -936,6 +963,152 @@ def multi_fixed():
     yield ['srv', 'conn', 'seg ' + hx(a3), 'on 1', 'seg ' + hx(b3), 'wfail', 'done 0 30', 'on 0', 'done 0 30', 'on 1', 'done 1 31', 'on 0', 'done 1 31', 'wq s3,a,e', 'done 2 32', 'on 1', 'done 2 32']
     # malformed lines
     yield ['conn', 'on 0', 'sstart', 'srv', 'on 1', 'on x', 'on', 'conn 1', 'conn', 'on 1', 'on 2', 'sstart', 'sstart x', 'conn', 'conn', 'conn', 'conn', 'conn', 'conn', 'conn', 'sclean', 'conn', 'sstart']
+
+
+def gen_backlog_case(rng):
+    """the listen backlog: clients connect before start() (`srvq`), while the server is stopped, from inside a handler (script
+    prefix `q`) that may stop / clean up the server in the same call; some send at once (`connd`); start() accepts them in
+    connect order over the cabinet cells of the torn-down connections, whose Contexts complete late (`done`, `dclose`, `cdone`);
+    cleanup() with clients waiting; several connections readable in one pass (`mseg`)"""
+    def rq(j, i, close=False, body=b''):
+        return ('%s /b%d/%d HTTP/1.1\r\n%sContent-Length: %d\r\n\r\n' % ('POST' if body else 'GET', j, i, 'Connection: close\r\n' if close else '', len(body))).encode() + body
+    first_q = rng.random() < 0.3
+    ops = ['srvq'] if first_q else ['srv']
+    state = 'inited' if first_q else 'running'
+    conns = [] if first_q else [dict(alive=True, n=0, kept=[], pre=0)]
+    pending = []        # pre-sent request counts of the clients in the backlog
+    cur = [0]
+    nq = [0]
+
+    def on(j):
+        if cur[0] != j: ops.append('on %d' % j); cur[0] = j
+
+    def feed(j, same_pass=None):
+        c = conns[j]
+        k = rng.choice([1, 1, 2, 3])
+        closing = rng.random() < 0.15
+        scripts = {}
+        on(j)
+        for t in range(k):
+            i = c['n'] + t
+            r = rng.random()
+            if r < 0.25: ops.append('sync %d %s' % (i, hx(b's%d.%d' % (j, i)))); scripts[i] = 'b'
+            elif r < 0.55 and state[0] == 'r' and nq[0] < 3:
+                sp = rng.choice(['q', 'q.k', 'q.k.s', 'q.s', 'q.k.c', 'q.b41', 'q.n/k', 'q/n/b42', 'q.b41.s', 'q.c'])
+                nq[0] += 1
+                ops.append('script %d %s' % (i, sp)); scripts[i] = sp
+            elif r < 0.62: sp = rng.choice(['k.s', 's', 'b41.s']); ops.append('script %d %s' % (i, sp)); scripts[i] = sp
+        data = b''.join(rq(j, c['n'] + t, closing and t == k - 1) for t in range(k))
+        return k, scripts, data
+
+    def account(j, k, scripts):
+        """what the generator believes happened (approximate: ops that turn out impossible are refused by both sides)"""
+        nonlocal state
+        c = conns[j]
+        if not c['alive'] or state != 'running': return
+        for t in range(k):
+            i = c['n']; c['n'] += 1
+            sp = scripts.get(i, 'k')
+            if sp.startswith('q'):
+                pending.append(0)
+            if 'k' in sp.split('/')[0] or sp in ('q', 's', 'q.s', 'q.c') and False: c['kept'].append(i)
+            elif sp == 'k': c['kept'].append(i)
+            if 's' in sp or sp.endswith('.c') or sp == 'q.c':
+                state = 'none' if sp.endswith('c') else 'inited'
+                for d in conns: d['alive'] = False
+                if state == 'none': del pending[:]
+                return
+        # still running: whoever connected from a handler is accepted in the following passes
+        while pending:
+            conns.append(dict(alive=True, n=0, kept=[], pre=pending.pop(0)))
+
+    for _ in range(rng.choice([6, 10, 14, 20])):
+        r = rng.random()
+        live = [j for j, c in enumerate(conns) if c['alive']]
+        if state == 'running':
+            if r < 0.35 and live:
+                j = rng.choice(live)
+                k, scripts, data = feed(j)
+                ops.append('seg ' + hx(data)); account(j, k, scripts)
+            elif r < 0.50 and len(live) >= 2:
+                js = rng.sample(live, rng.choice([2, 2, 3]) if len(live) >= 3 else 2)
+                items = []
+                for j in js:
+                    k, scripts, data = feed(j)
+                    items.append((j, k, scripts, data))
+                ops.append(rng.choice(['mseg ', 'msegr ']) + ','.join('%d:%s' % (j, hx(d)) for (j, _, _, d) in items))
+                for (j, k, scripts, _) in items: account(j, k, scripts)
+            elif r < 0.65:
+                cand = [(j, i) for j, c in enumerate(conns) for i in c['kept']]
+                if cand:
+                    j, i = rng.choice(cand); conns[j]['kept'].remove(i); on(j)
+                    ops.append(rng.choice(['done %d %s' % (i, hx(b'r%d.%d' % (j, i))), 'rel %d' % i, 'dclose %d 58' % i, 'cdone %d 59' % i]))
+            elif r < 0.75 and len(conns) < 7: ops.append('conn'); conns.append(dict(alive=True, n=0, kept=[], pre=0))
+            elif r < 0.90:
+                ops.append(rng.choice(['sstop', 'sstop', 'sstop', 'sclean']))
+                state = 'none' if ops[-1] == 'sclean' else 'inited'
+                for d in conns: d['alive'] = False
+            else: ops.append('sstart')
+        elif state == 'inited':
+            if r < 0.30 and len(conns) + len(pending) < 7 and len(pending) < 4:
+                if rng.random() < 0.5: ops.append('conn'); pending.append(0)
+                else:
+                    j = len(conns) + len(pending); k = rng.choice([1, 2, 3])
+                    ops.append('connd ' + hx(b''.join(rq(j, t, rng.random() < 0.1 and t == k - 1) for t in range(k)) + (b'GET /b%d/par' % j if rng.random() < 0.3 else b'')))
+                    pending.append(k)
+            elif r < 0.50:
+                cand = [(j, i) for j, c in enumerate(conns) for i in c['kept']]
+                if cand:
+                    j, i = rng.choice(cand); conns[j]['kept'].remove(i); on(j)
+                    ops.append(rng.choice(['done %d %s' % (i, hx(b'late%d.%d' % (j, i))), 'rel %d' % i, 'dclose %d 58' % i, 'cdone %d 59' % i]))
+            elif r < 0.58 and conns:
+                j = rng.randrange(len(conns)); on(j); ops.append('seg ' + hx(rq(j, 9)))
+            elif r < 0.64: ops.append(rng.choice(['sstop', 'sclean'])); state = 'none' if ops[-1] == 'sclean' else state; pending[:] = [] if state == 'none' else pending
+            elif r < 0.70 and conns: ops.append('on %d' % (len(conns) + len(pending))); ops.append('seg 00')     # nobody there yet
+            else:
+                ops.append('sstart'); state = 'running'
+                for k in pending:
+                    c = dict(alive=True, n=k, kept=list(range(k)), pre=k); conns.append(c)
+                del pending[:]
+        else:
+            if r < 0.4: ops.append('conn')
+            elif r < 0.6: ops.append('sstart')
+            else:
+                cand = [(j, i) for j, c in enumerate(conns) for i in c['kept']]
+                if cand:
+                    j, i = rng.choice(cand); conns[j]['kept'].remove(i); on(j)
+                    ops.append(rng.choice(['done %d %s' % (i, hx(b'late%d.%d' % (j, i))), 'dclose %d 58' % i, 'cdone %d 59' % i]))
+    cand = [(j, i) for j, c in enumerate(conns) for i in c['kept']]
+    rng.shuffle(cand)
+    for (j, i) in cand[:8]:
+        on(j); ops.append('done %d %s' % (i, hx(b'end%d.%d' % (j, i))))
+    return ops
+
+
+def backlog_fixed():
+    def rq(j, i, close=False):
+        return ('GET /c%d/%d HTTP/1.1\r\n%sContent-Length: 0\r\n\r\n' % (j, i, 'Connection: close\r\n' if close else '')).encode()
+    a3 = b''.join(rq(0, i) for i in range(3)); b3 = b''.join(rq(1, i) for i in range(3))
+    # three connections readable in one pass, in an order that is not the order of writing; one of them closes
+    yield ['srv', 'conn', 'conn', 'sync 0 30', 'on 1', 'sync 1 31', 'mseg 1:%s,0:%s,2:%s' % (hx(b3), hx(a3), hx(rq(2, 0, True))), 'on 2', 'done 0 32', 'on 0', 'done 1 31',
+           'msegr 0:%s,1:%s' % (hx(a3), hx(b3)), 'done 2 32', 'on 1', 'done 0 30']
+    # clients before start(); one has already sent three requests; stop with Contexts held; one more client; start; cleanup; refused
+    yield ['srvq', 'seg 00', 'conn', 'connd ' + hx(a3), 'conn', 'on 0', 'sstart', 'on 1', 'done 0 30', 'on 2', 'on 0', 'seg ' + hx(b3), 'sstop', 'conn', 'sstart', 'on 3',
+           'seg ' + hx(a3), 'on 0', 'done 1 31', 'sclean', 'conn', 'sstart', 'on 3', 'done 0 30']
+    # a client connects while a handler runs which then stops the server / keeps running / cleans up
+    yield ['srv', 'conn', 'script 0 q.k.s', 'script 1 q', 'seg ' + hx(a3), 'conn', 'sstart', 'on 2', 'seg ' + hx(b3), 'on 0', 'done 0 30', 'on 3', 'seg ' + hx(a3), 'on 2', 'done 1 31']
+    yield ['srv', 'conn', 'script 1 q.k', 'seg ' + hx(a3), 'on 2', 'seg ' + hx(b3), 'on 0', 'script 3 q.c', 'seg ' + hx(rq(0, 3)), 'conn', 'sstart', 'on 2', 'done 0 30']
+    # handler stop / throw while another connection of the same pass has not been read yet
+    yield ['srv', 'conn', 'on 1', 'script 0 s', 'on 0', 'mseg 1:%s,0:%s' % (hx(b3), hx(a3)), 'sstart', 'conn', 'on 2', 'seg ' + hx(a3)]
+    yield ['srv', 'conn', 'on 1', 'script 0 k.c', 'on 0', 'msegr 1:%s,0:%s' % (hx(b3), hx(a3)), 'on 1', 'done 0 30']
+    yield ['srv', 'conn', 'on 1', 'script 0 t', 'on 0', 'sync 0 30', 'mseg 0:%s,1:%s' % (hx(a3), hx(b3))]
+    # commit in the pass of the peer's close, on a connection torn down by stop(); its cabinet cell belongs to a new connection
+    for late in (['dclose 0 58'], ['cdone 0 59'], ['dcloseN 0 70000 65']):
+        yield ['srv', 'conn', 'seg ' + hx(a3), 'sstop', 'sstart', 'conn', 'on 2', 'seg ' + hx(b3), 'on 0'] + late + ['on 1', 'cdone 0 59', 'on 0', 'done 1 5a', 'on 2', 'done 0 30', 'done 1 31']
+        yield ['srv', 'seg ' + hx(a3), 'cclose', 'conn', 'on 1', 'seg ' + hx(b3), 'on 0', 'done 1 31'] + late + ['on 1', 'done 0 30'] + late
+    # malformed
+    yield ['srvq', 'srvq', 'srv', 'connd', 'connd zz', 'connd -', 'mseg', 'mseg 0:00', 'sstart', 'conn', 'mseg 0:00,0:01', 'mseg 0:00,1:01', 'mseg 0:', 'mseg 0', 'mseg x:00', 'msegr 0:00,',
+           'connd 00', 'script 0 k.q', 'script 0 n/q', 'script 0 q.q', 'script 0 q', 'wq p', 'mseg 0:00', 'seg ' + hx(a3)]
 
 
 NASTY_ORDERS = [[1, 3, 0, 2], [1, 3, 0, 2, 4], [1, 3, 5, 0, 2, 4], [4, 2, 0, 1, 3], [1, 2, 4, 5, 0, 3], [5, 3, 1, 0, 2, 4], [2, 4, 1, 0, 3, 5],
@@ -1101,13 +1274,18 @@ def gen_raw(rng, tier):
         yield ops
     for _ in range(300 if tier == 'quick' else 8000):
         yield gen_multi_case(rng)
+    # --- the listen backlog; several connections readable in one loop pass; commits in the pass of the peer's close
+    for ops in backlog_fixed():
+        yield ops
+    for _ in range(300 if tier == 'quick' else 8000):
+        yield gen_backlog_case(rng)
 
 
 def nontrivial(ops, model_lines):
     tags = ' '.join(l for l in model_lines if l.startswith('B '))
     nseg = sum(1 for o in ops if o.startswith(('feed ', 'seg ')))
     if 'req-' in tags and nseg >= 2: return 1
-    if any(t in tags for t in ('wq-', 'read-error', 'accept-errors', 'parked', 'wrote-flush', 'wrote-closing', 'parse-fail', 'seg-after-close', 'peer-close', 'doneN', 'doneR', 'rel-', 'half-close', 'wfail', 'epipe', 'h-', 'url-', 'absurl-', 'host-', 'upath-', 'uhost-', 'mkreq', 'mkres', 'stop-', 'multi-', 'conn', 'stale-token', 'sstart')): return 1
+    if any(t in tags for t in ('wq-', 'read-error', 'accept-errors', 'parked', 'wrote-flush', 'wrote-closing', 'parse-fail', 'seg-after-close', 'peer-close', 'doneN', 'doneR', 'rel-', 'half-close', 'wfail', 'epipe', 'h-', 'url-', 'absurl-', 'host-', 'upath-', 'uhost-', 'mkreq', 'mkres', 'stop-', 'multi-', 'conn', 'stale-token', 'sstart', 'same-pass', 'backlog-', 'srvq', 'mseg')): return 1
     return None
 
 
